@@ -31,7 +31,10 @@ def showSrc : Option Src → String
   | some (.defx e) => s!"def:{e}"
   | some (.unbound p) => s!"unbound:{p}"
 
-def pathKey (π : List String) (k : String) : String := ".".intercalate (π ++ [k])
+/-- a foreign unexported field carries its package qualifier in the model (`sub.x`); keys are printed without it -/
+def bareName (k : String) : String := if k.startsWith "sub." then (k.drop 4).toString else k
+
+def pathKey (π : List String) (k : String) : String := ".".intercalate (π ++ [bareName k])
 
 def ctorModel (t : Tree) (hasNewIn : Bool) : List (String × String) :=
   let g := gen t hasNewIn
